@@ -25,6 +25,10 @@ pub enum Step {
     D,
     F,
     C,
+    /// a predicted picture whose data ends early (inside a macroblock header): accepted, becomes the reference
+    T,
+    /// a disposable picture of another size made of intra macroblocks only: accepted, must not touch the reference
+    X,
 }
 
 impl Step {
@@ -35,6 +39,8 @@ impl Step {
             Step::D => 'D',
             Step::F => 'F',
             Step::C => 'C',
+            Step::T => 'T',
+            Step::X => 'X',
         }
     }
 }
@@ -130,7 +136,8 @@ pub fn run_history(ctx: &Ctx, steps: &[Step], tr_policy: u64, sorenson: bool, rn
     let mut since_ref_event = false;
     rep.evaluations += 1;
     let _ = ctx;
-    for (si, st) in steps.iter().enumerate() {
+    for (si, st0) in steps.iter().enumerate() {
+        let st = &(if long && *st0 == Step::X { Step::D } else { *st0 });
         // temporal reference for this step
         tr = match tr_policy {
             0 => tr.wrapping_add(1),
@@ -191,9 +198,43 @@ pub fn run_history(ctx: &Ctx, steps: &[Step], tr_policy: u64, sorenson: bool, rn
                 reference = last;
                 since_ref_event = false;
             }
-            Step::P | Step::D => {
+            Step::X => {
+                // other size, intra macroblocks only, disposable: needs no reference and must not alter it
+                let mut c2 = cfg.clone();
+                c2.w = cfg.w + 16 * (1 + rng.below(2) as usize);
+                c2.h = if rng.chance(1, 2) { cfg.h } else { cfg.h + 7 };
+                let mut pic = gen_reference(rng, &c2);
+                if let Hdr::Sor(hd) = &mut pic.hdr {
+                    hd.ptype = 2;
+                }
+                let b = pic.encode();
+                fp = fnv64_more(fp, &b);
+                match dec.decode(&b) {
+                    Outcome::Ok => {}
+                    Outcome::Panic { msg, loc } => {
+                        rep.violation(format!("panic@{}", loc), ctxs(&msg), coords());
+                        return;
+                    }
+                    Outcome::Err(k) => {
+                        // an all-intra picture needs no prediction; a decoder may still refuse the size change
+                        rep.count(&format!("void:all-intra-disposable-refused:{}", k));
+                        return;
+                    }
+                }
+                let planes = dec.planes().unwrap();
+                stored.push(Stored { planes, tr, kind: Step::X });
+                last = Some(stored.len() - 1);
+                since_ref_event = true;
+                rep.count("all_intra_disposable_of_other_size");
+            }
+            Step::P | Step::D | Step::T => {
                 let disposable = *st == Step::D;
-                let pic = if long { long_history_picture(rng, &cfg, disposable) } else { vector_field_picture(rng, &cfg, disposable) };
+                let mut pic = if long { long_history_picture(rng, &cfg, disposable) } else { vector_field_picture(rng, &cfg, disposable) };
+                if *st == Step::T {
+                    let n = pic.mbs.len();
+                    pic.mbs.truncate(rng.below(n as u64) as usize);
+                    rep.count("early_ending_predicted_pictures");
+                }
                 let b = pic.encode();
                 fp = fnv64_more(fp, &b);
                 let out = dec.decode(&b);
@@ -227,6 +268,11 @@ pub fn run_history(ctx: &Ctx, steps: &[Step], tr_policy: u64, sorenson: bool, rn
                 for (j, s) in stored.iter().enumerate() {
                     // long histories: only the recent pictures and the reference are candidates (keeps the check linear)
                     if long && j + 6 < stored.len() && j != r {
+                        continue;
+                    }
+                    // pictures of another size cannot be the reference of this one; pictures with the very
+                    // same content as the reference are indistinguishable from it and do not matter
+                    if s.planes.w != pic.w || s.planes.h != pic.h || (j != r && s.planes == stored[r].planes) {
                         continue;
                     }
                     let rec = match reconstruct(&pic, Some(&s.planes)) {
@@ -264,7 +310,7 @@ pub fn run_history(ctx: &Ctx, steps: &[Step], tr_policy: u64, sorenson: bool, rn
                     rep.violation(format!("wrong-reference/{}{}", what, cflag), ctxs(&format!("decoded planes equal the prediction from stored picture(s) {:?}, the reference is picture {} (kinds so far: {})", matches_idx, r, stored.iter().map(|s| s.kind.ch()).collect::<String>())), coords());
                     return;
                 }
-                stored.push(Stored { planes: got, tr, kind: *st });
+                stored.push(Stored { planes: got, tr, kind: if *st == Step::T { Step::P } else { *st } });
                 last = Some(stored.len() - 1);
                 if !disposable {
                     reference = last;
@@ -279,7 +325,7 @@ pub fn run_history(ctx: &Ctx, steps: &[Step], tr_policy: u64, sorenson: bool, rn
                 let s = &stored[l];
                 let type_ok = match s.kind {
                     Step::I => hv.ptype == "IFrame",
-                    Step::P => hv.ptype == "PFrame",
+                    Step::P | Step::T => hv.ptype == "PFrame",
                     _ => hv.ptype == "DisposablePFrame",
                 };
                 if planes != s.planes || hv.tr != s.tr as u16 || !type_ok {
@@ -293,7 +339,27 @@ pub fn run_history(ctx: &Ctx, steps: &[Step], tr_policy: u64, sorenson: bool, rn
                 return;
             }
         }
+        // the picture the decoder itself names as its reference must be the model's `reference`
+        let got_ref = dec.st.get_reference_picture().map(|p| {
+            let (y, _, _) = p.as_yuv();
+            (crate::sut::view_of(p.as_header()).tr, y.to_vec())
+        });
+        match (reference, got_ref) {
+            (None, None) => {}
+            (Some(r), Some((rtr, y))) => {
+                if rtr != stored[r].tr as u16 || y != stored[r].planes.y {
+                    rep.violation(format!("reference-picture/after-{}", st.ch()), ctxs(&format!("get_reference_picture() reports tr={} (model reference: tr={} kind={}), luma equal: {}", rtr, stored[r].tr, stored[r].kind.ch(), y == stored[r].planes.y)), coords());
+                    return;
+                }
+                rep.count("reference_picture_checks");
+            }
+            (a, b) => {
+                rep.violation("reference-picture/presence", ctxs(&format!("model reference = {:?}, decoder reports a reference: {}", a, b.is_some())), coords());
+                return;
+            }
+        }
     }
+    let _ = &reference;
     for w2 in steps.windows(2) {
         rep.count(&format!("bigram:{}{}", w2[0].ch(), w2[1].ch()));
     }
@@ -307,7 +373,7 @@ pub fn run_history(ctx: &Ctx, steps: &[Step], tr_policy: u64, sorenson: bool, rn
     }
 }
 
-const ALPHA: [Step; 5] = [Step::I, Step::P, Step::D, Step::F, Step::C];
+const ALPHA: [Step; 7] = [Step::I, Step::P, Step::D, Step::F, Step::C, Step::T, Step::X];
 
 /// Histories with long runs of one event between a reference and the picture that must still be
 /// predicted from it: I X^n P P, for X in {D, F, C, P} and n around 2^4, 2^8, 2^16.
@@ -341,7 +407,7 @@ pub fn ladder_items(thorough: bool) -> Vec<(Vec<Step>, u64)> {
 pub fn case(ctx: &Ctx, shard: usize, index: u64, rep: &mut Report) {
     let mut rng = Rng::new(ctx.seed ^ 0xC04, ((shard as u64) << 40) | index);
     let sorenson = rng.chance(4, 5);
-    let alpha: &[Step] = if sorenson { &ALPHA } else { &[Step::I, Step::P, Step::F, Step::C] };
+    let alpha: &[Step] = if sorenson { &ALPHA } else { &[Step::I, Step::P, Step::F, Step::C, Step::T] };
     // a few very long histories (counters that wrap after 256 events, maps that grow, ...)
     let n = if rng.chance(1, 250) { 260 + rng.below(400) as usize } else { 2 + rng.below(11) as usize };
     let mut steps: Vec<Step> = vec![];
@@ -349,7 +415,7 @@ pub fn case(ctx: &Ctx, shard: usize, index: u64, rep: &mut Report) {
     if rng.chance(9, 10) {
         steps.push(Step::I);
     }
-    let wts: &[u64] = if sorenson { &[2, 4, 4, 1, 1] } else { &[2, 5, 1, 1] };
+    let wts: &[u64] = if sorenson { &[4, 8, 8, 2, 2, 3, 2] } else { &[4, 10, 2, 2, 3] };
     let tot: u64 = wts.iter().sum();
     while steps.len() < n {
         let mut r = rng.below(tot);
@@ -376,12 +442,12 @@ pub fn run(ctx: &Ctx) -> (Report, String) {
         for i in 0..per_shard {
             crate::mon::guarded(&mut rep, || crate::mon::coords("C04", ctx, s, i), |rep| case(ctx, s, i, rep));
         }
-        // bounded-exhaustive: all histories of length <= L over the 5-letter alphabet x 3 TR policies
+        // bounded-exhaustive: all histories of length <= L over the 7-letter alphabet x 3 TR policies
         let maxlen = if thorough { 5 } else { 4 };
         let mut rng = Rng::new(ctx.seed ^ 0xC04E, s as u64);
         let mut idx = 0u64;
         for len in 1..=maxlen {
-            let total = 5u64.pow(len as u32);
+            let total = 7u64.pow(len as u32);
             for code in 0..total {
                 idx += 1;
                 if idx % 64 != s as u64 {
@@ -390,8 +456,8 @@ pub fn run(ctx: &Ctx) -> (Report, String) {
                 let mut c = code;
                 let steps: Vec<Step> = (0..len)
                     .map(|_| {
-                        let k = (c % 5) as usize;
-                        c /= 5;
+                        let k = (c % 7) as usize;
+                        c /= 7;
                         ALPHA[k]
                     })
                     .collect();
@@ -426,7 +492,7 @@ pub fn run(ctx: &Ctx) -> (Report, String) {
     if ctx.is_main() {
         let m = ctx.scale_pct;
         rep.require("histories_completed", if thorough { 2_500_000 } else { 150_000 } * m / 100);
-        for k in ["predictions_identified", "predictions_after_non_reference_event", "tr_collision_cases", "trigram:IDP", "trigram:PDP", "trigram:DDP", "trigram:DFP", "trigram:DCP", "bigram:DD", "cleanup_calls", "rejected_inputs", "last_picture_checks"] {
+        for k in ["predictions_identified", "predictions_after_non_reference_event", "tr_collision_cases", "trigram:IDP", "trigram:PDP", "trigram:DDP", "trigram:DFP", "trigram:DCP", "bigram:DD", "cleanup_calls", "rejected_inputs", "last_picture_checks", "reference_picture_checks", "early_ending_predicted_pictures", "all_intra_disposable_of_other_size", "trigram:TPP", "trigram:XPP"] {
             rep.require(k, 100 * m / 100);
         }
     }
@@ -455,6 +521,8 @@ pub fn replay(ctx: &Ctx, j: &J, rep: &mut Report) {
                 'P' => Step::P,
                 'D' => Step::D,
                 'F' => Step::F,
+                'T' => Step::T,
+                'X' => Step::X,
                 _ => Step::C,
             })
             .collect();
